@@ -182,6 +182,9 @@ impl<'a> QName<'a> {
 pub open spec fn is_ns_binding(n: Seq<u8>) -> bool {
     n.len() >= 5 && n.subrange(0, 5) == seq![0x78u8, 0x6d, 0x6c, 0x6e, 0x73] && (n.len() == 5 || n[5] == 0x3a)
 }
+//@if encoding
+// (with feature `encoding` Decoder::decode_into transcodes through encoding_rs -- unit enc --; it and from_attr are under contract in the UTF-8 build only)
+//@else
 impl Decoder {
 //@extract encoding::Decoder::decode_into | src/encoding.rs :: impl Decoder :: fn decode_into | serves=C14 features=serialize n11=@from_utf8
  pub fn decode_into(&self, bytes: &[u8], buf: &mut String) -> (r: Result<(), EncodingError>)
@@ -237,6 +240,7 @@ impl<'i, 'd> QNameDeserializer<'i, 'd> {
     }
 //@end
 }
+//@endif
 // ---- C20: does a tag belong to the fields of a struct (the `Exclude` filter of a `$value` list)? ----
 /// verified shim for `s.iter().all(f)` (N2): true iff the test holds for every element
 pub fn all_ref<T, F: Fn(&T) -> bool>(s: &[T], f: F) -> (r: bool)
